@@ -67,7 +67,7 @@ func (s *scanner) scanInputs(n int, majors []byte) [][]byte {
 			} else {
 				b = append(b, r.Bytes(r.Intn(6))...)
 			}
-			if r.Intn(8) == 0 {
+			if r.Intn(8) == 0 && len(b) > 0 {
 				b[0] = b[0]&0xe0 | byte(28+r.Intn(4)) // reserved / indefinite additional info
 			}
 		default:
